@@ -581,9 +581,10 @@ pub struct Ex<H> {
     odd: bool,
     out: String,
     regtxt: String,
-    /// print `t=0` for `unwound` ops whose working queue is dropped by the
-    /// unwinding (see README: model quirk, opt-in)
-    unwound_t0: bool,
+    /// set after an unwound `retain` / `retain_mut`: the IndexMap's index
+    /// table is stale, which the model does not describe.  The remaining ops
+    /// are still executed (an abort there is a finding) but print nothing.
+    silent: bool,
 }
 
 fn two_mut<T>(v: &mut [T], a: usize, b: usize) -> (&mut T, &mut T) {
@@ -621,7 +622,7 @@ impl<H: BuildHasher + Default + Clone> Ex<H> {
             odd,
             out: String::new(),
             regtxt: String::new(),
-            unwound_t0: std::env::var_os("PQH_UNWOUND_T0").is_some(),
+            silent: false,
         }
     }
 
@@ -642,6 +643,19 @@ impl<H: BuildHasher + Default + Clone> Ex<H> {
         if toks.is_empty() {
             bad("empty op");
         }
+        if self.silent {
+            // keep executing, print nothing, ignore panics (an abort is
+            // reported by the parent as `fault ub`)
+            let mut out = std::mem::take(&mut self.out);
+            out.clear();
+            if let Some(k) = fuse {
+                fuse_arm(k);
+            }
+            let _ = catch_unwind(AssertUnwindSafe(|| self.do_op(toks, &mut out)));
+            fuse_disarm();
+            self.out = out;
+            return false;
+        }
         let mut out = std::mem::take(&mut self.out);
         out.clear();
         cmps_reset();
@@ -650,8 +664,9 @@ impl<H: BuildHasher + Default + Clone> Ex<H> {
         }
         let r = catch_unwind(AssertUnwindSafe(|| self.do_op(toks, &mut out)));
         fuse_disarm();
-        let mut t = cmps_get();
+        let t = cmps_get();
         let mut dead = false;
+        let mut unwound = false;
         match r {
             Ok(Res::Done) => {}
             Ok(Res::FaultPanic) => {
@@ -663,14 +678,9 @@ impl<H: BuildHasher + Default + Clone> Ex<H> {
                 out.clear();
                 if fuse.is_some() && is_fuse(&*p) {
                     out.push_str("unwound");
-                    if self.unwound_t0
-                        && matches!(
-                            toks[0],
-                            "fromvec" | "fromiter" | "serde" | "deser" | "convert" | "sortediter"
-                                | "sortedvec"
-                        )
-                    {
-                        t = 0;
+                    unwound = true;
+                    if matches!(toks[0], "retain" | "retainmut") {
+                        self.silent = true;
                     }
                 } else {
                     out.push_str("fault panic");
@@ -696,7 +706,12 @@ impl<H: BuildHasher + Default + Clone> Ex<H> {
         }
         line.push_str(&out);
         line.push_str(" ; t=");
-        p_u64(line, t);
+        if unwound && !dead {
+            // ticks of an unwound step are not compared
+            line.push('-');
+        } else {
+            p_u64(line, t);
+        }
         line.push_str(&regtxt);
         self.regtxt = regtxt;
         line.push('\n');
@@ -1283,7 +1298,7 @@ pub fn exec_child(hist: &str, trace: &str, off: u64, slow: bool) {
             let id = tok(&toks, 1);
             let mode: u32 = toks.get(2).map_or(0, |s| num(s));
             let nregs: usize = toks.get(3).map_or(4, |s| num(s));
-            let odd = id.as_bytes().last().map_or(false, |c| (c - b'0') % 2 == 1);
+            let odd = id.as_bytes().last().map_or(false, |c| c.wrapping_sub(b'0') % 2 == 1);
             ex = Some(AnyEx::new(mode, nregs, odd));
             dead = false;
             buf.push_str("H ");
@@ -1347,6 +1362,10 @@ pub fn exec_parent(hist: &str, trace: &str, timeout_s: u64) -> i32 {
     let mut faults = 0u64;
     let debug = std::env::var_os("PQH_DEBUG").is_some();
     loop {
+        let total = std::fs::metadata(hist).map(|m| m.len()).unwrap_or_else(|e| io_fail(hist, e));
+        if off >= total {
+            break;
+        }
         let mut child = Command::new(&exe)
             .arg("exec-child")
             .arg(hist)
